@@ -180,8 +180,6 @@ class C04(Check):
             c.pop('cols')
         return c
 
-    def still_fails(self, model, c):
-        return Check.still_fails(self, model, c)
 
 
 def main(tier, seed, replay=None):
